@@ -7,7 +7,7 @@ PROP = {
     "trusted_base": [KERNEL, AXIOMS, TIE, RUST, HAND, PUSH_MODEL, FLOATS],
     "assumptions": ["partial: wall-clock termination, memory per step (block unfold O(block), Flush O(size)), allocator aborts and native stack depth of recursive Drop/Clone are runtime facts no theorem here covers; the real runs are under catch_unwind",
                     "usize overflow of the step counter / push_many length is unreachable on real hardware"],
-    "explanation": "Lean theorems about the code-shaped interpreter loop: totality (structural recursion on the step budget), steps_le (at most the configured number of steps), run_WF / run_sizes (for every step budget, hence for every intermediate state: all stacks within their limits, inputs still bound), abort_only_overflow (a run ends in an error only by a stack overflow raised in a well-formed state, which is returned untouched), no_panic (from well-formed states, i.e. all mentioned input variables bound), panic_only_unbound. Witness programs (self-replicating DupBlock loop, oversized block, 3-deep nesting) evaluated by the kernel to both endings. Tie: random looping/growing/nested programs with stack limits from 0 and step limits from 0, real run under catch_unwind compared with the model at the configured and at smaller limits; oracles: no panic, sizes within limits, only Overflow aborts.",
+    "explanation": "Lean theorems about the code-shaped interpreter loop: totality (structural recursion on the step budget), steps_le (at most the configured number of steps), run_WF / run_sizes (for every step budget, hence for every intermediate state: all stacks within their limits, inputs still bound), abort_only_overflow (a run ends in an error only by a stack overflow raised in a well-formed state, which is returned untouched), no_panic (from well-formed states, i.e. all mentioned input variables bound), panic_only_unbound, done_early_exec_empty / done_dichotomy (a normal ending is either 'exec stack empty' or 'exactly the step limit performed': the loop never stops early of its own accord), run_finished (a machine with an empty exec stack is a fixed point: 0 steps, same state). Witness programs (self-replicating DupBlock loop, oversized block, 3-deep nesting) evaluated by the kernel to both endings. Tie: random looping/growing/nested programs with stack limits from 0 and step limits from 0, real run under catch_unwind compared with the model at the configured and at smaller limits; oracles: no panic, sizes within limits, only Overflow aborts.",
 }
 META = {
     "level_text": "Machine-checked: the interpreter model is total and performs at most max_steps steps; well-formedness (sizes within limits, inputs bound) is an invariant of the loop for every step budget; the only abort is a stack overflow and no panic branch is reachable from well-formed states. Partial for the runtime side (time, memory, native recursion), which no executable model can exhibit. Tied to the Rust by random programs incl. looping and growing ones, compared with the model at several step limits.",
